@@ -186,8 +186,13 @@ Fixpoint ambig_items (i : nat) (p : prog) : list (nat * prog) :=
   | it :: r =>
       match it with
       | IFun fd =>
-          [(S i, it :: IFun (twin fd) :: r
-                 ++ [IStmt (SPrint [ECall (fd_name fd) (map lit_of (fd_params fd))])])]
+          (* only when the original result type has `<<` too: a Box value is not printable, so
+             `stdout << f(..)` would single out the String twin and be legal Aldor            *)
+          match fd_ret fd with
+          | TBox _ _ => []
+          | _ => [(S i, it :: IFun (twin fd) :: r
+                        ++ [IStmt (SPrint [ECall (fd_name fd) (map lit_of (fd_params fd))])])]
+          end
       | _ => []
       end
       ++ map (fun ir => (fst ir, it :: snd ir)) (ambig_items (S i) r)
